@@ -556,8 +556,96 @@ func c10SrcIndex(r *rt.Run, failAt bool) {
 	}
 }
 
+// c10Relative: the *File entry points take relative names, which mean "in the
+// working directory of the process NOW".  Three directories hold files of the
+// same names with different contents; the process changes directory between
+// the calls (a tape-chosen walk, entry points mixed): each call decodes the
+// file of the directory it is made in and reports that file's absolute name.
+func c10Relative(r *rt.Run) {
+	t := r.T
+	fs := simos.New(r)
+	dirs := []string{"/work/alpha", "/work/beta", "/srv/queue/gamma"}
+	type set struct {
+		dsc mDSC
+		chg mChanges
+		ctl mControlFile
+	}
+	sets := make([]set, len(dirs))
+	for i, d := range dirs {
+		src := genPkgName(t, "c10.rel.src") + fmt.Sprintf("%c", 'a'+i)
+		sets[i].dsc = genDSC(t, "c10.rel.dsc", src, []string{src}, depOpts{MaxRels: 2})
+		sets[i].chg = genChanges(t, "c10.rel.chg")
+		sets[i].ctl = genControlFile(t, "c10.rel.ctl")
+		fs.PutQuiet(d+"/upload.dsc", []byte(sets[i].dsc.render()))
+		fs.PutQuiet(d+"/upload.changes", []byte(sets[i].chg.render()))
+		fs.PutQuiet(d+"/debian/control", []byte(sets[i].ctl.render()))
+	}
+	simos.Install(fs)
+	defer simos.Install(nil)
+	r.Probe("relative-names-after-a-change-of-directory")
+	for step, n := 0, 3+t.Draw(4, "c10.rel.steps"); step < n; step++ {
+		i := t.Draw(len(dirs), "c10.rel.dir")
+		fs.Chdir(dirs[i])
+		kind := t.Draw(3, "c10.rel.kind")
+		rel := []string{"upload.dsc", "upload.changes", "debian/control"}[kind]
+		if t.Bool(1, 4, "c10.rel.dotslash") {
+			rel = "./" + rel
+		}
+		wantName := dirs[i] + "/" + strings.TrimPrefix(rel, "./")
+		var gotName, gotSrc, wantSrc string
+		var err error
+		task := r.Solo("parser", func() {
+			switch kind {
+			case 0:
+				var d *control.DSC
+				if d, err = control.ParseDscFile(rel); err == nil {
+					gotName, gotSrc = d.Filename, d.Source+" "+d.Version.String()
+				}
+				wantSrc = sets[i].dsc.Source + " " + sets[i].dsc.Version.Text
+			case 1:
+				var c *control.Changes
+				if c, err = control.ParseChangesFile(rel); err == nil {
+					gotName, gotSrc = c.Filename, c.Source+" "+c.Version.String()
+				}
+				wantSrc = sets[i].chg.Source + " " + sets[i].chg.Version.Text
+			case 2:
+				var c *control.Control
+				if c, err = control.ParseControlFile(rel); err == nil {
+					gotName, gotSrc = c.Filename, c.Source.Source
+				}
+				wantSrc = sets[i].ctl.Src.Source
+			}
+		})
+		key := []string{"ParseDscFile", "ParseChangesFile", "ParseControlFile"}[kind] + "/relative-name"
+		if taskTrouble(r, "C10", key, task) {
+			return
+		}
+		if err != nil {
+			r.Violate("C10/parse-error", key, "step %d: in %s, %q: %v", step, dirs[i], rel, err)
+			return
+		}
+		if gotName != wantName {
+			r.Violate("C10/field-mismatch", key+"/Filename", "step %d: the process is in %s and parses %q: Filename=%q want %q", step, dirs[i], rel, gotName, wantName)
+			return
+		}
+		if kind != 2 && strings.ReplaceAll(gotSrc, " 0:", " ") != strings.ReplaceAll(wantSrc, " 0:", " ") && gotSrc != wantSrc {
+			r.Violate("C10/field-mismatch", key+"/wrong-file-decoded", "step %d: the process is in %s and parses %q: decoded %q, the file there says %q", step, dirs[i], rel, gotSrc, wantSrc)
+			return
+		}
+		if kind == 2 && gotSrc != wantSrc {
+			r.Violate("C10/field-mismatch", key+"/wrong-file-decoded", "step %d: the process is in %s and parses %q: decoded source %q, the file there says %q", step, dirs[i], rel, gotSrc, wantSrc)
+			return
+		}
+	}
+}
+
 func runC10(r *rt.Run, tier string) {
 	t := r.T
+	if t.Bool(1, 12, "c10.part-relative") {
+		r.Stats["part.relative-names"]++
+		c10Relative(r)
+		return
+	}
 	// 1..3 documents of (usually) different kinds are parsed one after the
 	// other in the same run: what one kind leaves behind in the process must
 	// not change how the next one is read
@@ -601,5 +689,5 @@ func init() {
 		},
 		Assumptions: []string{"the .deb control file kind of this property is exercised by C14's check", "two-part architecture names are compared on OS and CPU only"},
 	})
-	propProbes["C10"] = []string{"clearsigned-document", "several-document-kinds-in-one-run", "line-longer-than-4096-bytes", "caller-bufio-smaller-than-4096", "via-file-entry-point"}
+	propProbes["C10"] = []string{"relative-names-after-a-change-of-directory", "clearsigned-document", "several-document-kinds-in-one-run", "line-longer-than-4096-bytes", "caller-bufio-smaller-than-4096", "via-file-entry-point"}
 }
